@@ -63,6 +63,19 @@ def r1_r5_reload(ctx):
     for f, cs in fw.items():
         ok, p = cfg.must_pass([first], ok_rets, via_blocks=[c.bb for c in cs]) if cs[0].bb != first else (True, None)
         ctx.ob("R18.1", "reload:all-four-on-success:%s" % f, ok, cs[0].site, "%s is written on every path from the first write to Ok" % f if ok else "a successful reload can skip the update of %s" % f)
+    # ... nor a panic: once the first field has been written, nothing that can unwind stands before the last write (an
+    # `unwrap()`/`expect()` on anything but the locks themselves) — an unwinding reload leaves the new certificate served with the
+    # old counters, and poisons the lock it held for every later reload and query
+    pan = []
+    for c in body.calls():
+        if c.bb in after and (c.norm or "").split("::")[-1] in ("unwrap", "expect", "unwrap_unchecked", "unwrap_err", "expect_err") and c.args and not c.is_tracing:
+            recv = o.of_operand(c.args[0])
+            if not is_call_term(recv, "RwLock::<T>::write", "RwLock::<T>::read", "Mutex::<T>::lock", "RwLock::write", "RwLock::read", "Mutex::lock"):
+                pan.append(c)
+    ctx.ob("R18.1", "reload:no-panic-after-first-write", not pan, pan[0].site if pan else "src/util/cert_reloader.rs:%s" % body.blocks[first]["tspan"]["line"],
+           "after the first published write only the lock acquisitions are unwrapped" if not pan else
+           "after %s has been replaced, reload() calls `%s` on `%s`: when that is None/Err the reload unwinds half-way — the new certificate is served while counters (and possibly the info) are the old ones, and the "
+           "lock held at that moment stays poisoned" % ([f for bb, f in allw if bb == first][0], pan[0].norm.split("::")[-1], fmt(o.of_operand(pan[0].args[0]))[:60]))
     # success means installed: no Ok return is reachable from the entry without the writes (an early `return Ok(())` — a debounce,
     # an "unchanged" shortcut — reports a reload that no later handshake will see)
     for f, cs in fw.items():
